@@ -204,7 +204,7 @@ def oracle_c04_stats(h):
                 out.append(
                     _viol(
                         "C04", "distribution", r,
-                        f"op {r['id']} [{op['sig']}] ({n} agents): exact binomial p = {pmin:.3g} < {FAMILY_ALPHA / n_tests:.3g} "
+                        f"op {r['id']} [{op['sig']}] ({n} agents): p = {pmin:.3g} (exact binomial test; Bernstein bound for the all-lag scan) < {FAMILY_ALPHA / n_tests:.3g} "
                         f"(family-wise 1e-9 over {n_tests} tests): {desc}",
                         h.plan,
                     )
@@ -219,6 +219,26 @@ def oracle_c04_stats(h):
         for lab, pr in enumerate(row):
             if 0.0 < pr < 1.0:
                 tests.append((float(_binom_two_sided(int(cnt[lab]), int(m), pr)), mid, sname, row, lab, int(cnt[lab]), int(m), ops_))
+    # a sampler that systematically favours one label POSITION (first, last, ...) in every row: sum over
+    # the rows of (count - expectation) for that position; Bernstein bound for the sum of independent,
+    # centred indicators (|x| <= 1, variance sum V):  P(|S| >= t) <= 2 exp(-t^2 / (2 (V + t / 3)))
+    by_pos = {}
+    for (mid, sname, row), (cnt, m, ops_) in pooled.items():
+        if len(ops_) < 2:
+            continue
+        for lab, pr in enumerate(row):
+            if 0.0 < pr < 1.0:
+                e = by_pos.setdefault((mid, sname, lab), [0.0, 0.0, 0, set()])
+                e[0] += float(cnt[lab]) - m * pr
+                e[1] += m * pr * (1.0 - pr)
+                e[2] += int(m)
+                e[3].update(ops_)
+    for (mid, sname, lab), (S, V, m, ops_) in by_pos.items():
+        if V < 200.0:
+            continue
+        t_ = abs(S)
+        bound = float(min(1.0, 2.0 * np.exp(-t_ * t_ / (2.0 * (V + t_ / 3.0)))))
+        tests.append((bound, mid, sname, ("all rows with 0 < p < 1 at this label position", round(V, 1)), lab, int(round(S)), m, sorted(ops_)))
     summary["pooled_tests"] = len(tests)
     summary["pooled_draws"] = int(sum(v[1] for v in pooled.values()))
     if tests:
@@ -228,8 +248,14 @@ def oracle_c04_stats(h):
             out.append(
                 _viol(
                     "C04", "distribution", rec,
-                    f"pooled over ops {ops_} (pairwise different seeds): {sname} with row {list(row)}: label {lab} occurred {c} times in {m} draws, "
-                    f"expected {m * row[lab]:.1f}; exact binomial p = {pmin:.3g} < {FAMILY_ALPHA / len(tests):.3g} (family-wise 1e-9 over {len(tests)} pooled tests)",
+                    (
+                        f"pooled over ops {ops_} (pairwise different seeds): {sname} with row {list(row)}: label {lab} occurred {c} times in {m} draws, "
+                        f"expected {m * row[lab]:.1f}; exact binomial p = {pmin:.3g}"
+                        if isinstance(row[0], float)
+                        else f"pooled over ops {ops_} (pairwise different seeds): {sname}, label position {lab}, {row[0]}: observed minus expected count {c:+d} over {m} draws "
+                        f"(variance under the rows of params {row[1]}); Bernstein bound {pmin:.3g}"
+                    )
+                    + f" < {FAMILY_ALPHA / len(tests):.3g} (family-wise 1e-9 over {len(tests)} pooled tests)",
                     h.plan,
                 )
             )
